@@ -84,6 +84,7 @@ var vCRLFRecord bool
 //verif:harness prop=C07 quick=1 thorough=1 merge=concrete
 //verif:bounds sanity: the small valid records (with ORIGIN / CONTIG-only / with ORIGIN and CRLF line ends) produced by the real writer are accepted by the real reader (concrete execution through the engine; calibrates the mutation harnesses)
 func VH_C07_genbank_baseline() {
+	defer func() { vCRLFRecord = false }() // natively all harnesses of a package share the globals
 	for k := 0; k < 3; k++ {
 		vCRLFRecord = k == 2
 		text := vSmallRecord(k != 1)
@@ -174,6 +175,9 @@ func vC07MutationAt(withOrigin bool, op int, o int) {
 	isGB := false
 	if recs >= 1 {
 		_, isGB = seqs[0].(GenBank) // a flipped first byte can turn the text into a (valid) FASTA record
+		// ... but only the first byte: a GenBank record that goes wrong later is an error, never a FASTA record
+		// that starts in the middle of the stream
+		vAssert("not-misread-as-fasta", vOr(isGB, in[0] == '>'))
 	}
 	if !withOrigin && recs >= 1 && isGB {
 		// CONTIG-only record: the declared length must be the length of the contig region
@@ -227,6 +231,7 @@ func VH_C07_genbank_mutation_origin() {
 //verif:bounds the same record with CRLF line ends (the reader's slow ORIGIN path): accepted unedited; truncate at every offset and flip every byte to a fully symbolic byte; quick: every fourth offset
 func VH_C07_genbank_mutation_crlf() {
 	vCRLFRecord = true
+	defer func() { vCRLFRecord = false }()
 	if vTier() == 0 {
 		s := vShard(4)
 		vC07Mutation(true, vChoice("op", 2), 4*s, 16)
